@@ -62,6 +62,17 @@ def util_events(rng, thorough):
                 if alg % 64 in ALGN and n > 0:
                     interp.append(dict(f="kmaster", alg=alg % 64, pat=pat, n=n, out=list(rx.password_to_master(ALGN[alg % 64], pw))))
                 out.append(dict(ev="Master", alg=alg, pat=pat, pwlen=n, exc=exc, bases=bases, isexc=isexc, out=list(res), interp=interp))
+    # the same password expanded under alternating digests, back to back (nothing may be remembered across digests)
+    for pat, n in (([109, 97, 112, 108, 101, 115, 121, 114, 117, 112], 10), ([97], 8), ([0, 255, 1], 33), ([120], 1024)):
+        pw = pw_of(pat, n)
+        for alg in (2, 1, 2, 1, 1, 2, 65, 2, 1):
+            exc, bases, isexc, res = "", [], True, b""
+            try:
+                res = _fast.get_master_key(alg, pw)
+            except BaseException as e:  # noqa
+                exc, bases, isexc = exc_info(e)
+            out.append(dict(ev="Master", alg=alg, pat=pat, pwlen=n, exc=exc, bases=bases, isexc=isexc, out=list(res),
+                            interp=[dict(f="kmaster", alg=alg % 64, pat=pat, n=n, out=list(rx.password_to_master(ALGN[alg % 64], pw)))]))
     for alg in (1, 2, 0, 7):
         for mlen in (0, 1, 15, 16, 17, 19, 20, 21, 32):
             for elen in ([0, 5, 17, 32] if not thorough else list(range(0, 33))):
